@@ -163,25 +163,36 @@ def op_sequences(c, depth=3, N=6):
     c.holds('sequences_enumerated', count > 50)
 
 
+class _Dataset(dict):
+    """what the diagnostics tool hands back, with the part of the xarray.Dataset interface a caller may use: mapping from variable name to value"""
+    @property
+    def data_vars(self): return self
+    def to_array(self): raise NotImplementedError
+
+
 class _Arviz:
+    """the tool's result for a variable is a token determined by the variable's NAME position in the data it was handed"""
     def __init__(self): self.calls = []
+    def _res(self, d): return _Dataset({key: types.SimpleNamespace(to_numpy=lambda i=i: float(100 + i), values=float(100 + i)) for i, key in enumerate(d)})
     def ess(self, d, **k):
-        self.calls.append(('ess', d)); return {key: types.SimpleNamespace(to_numpy=lambda i=i: float(i)) for i, key in enumerate(d)}
+        self.calls.append(('ess', d)); return self._res(d)
     def rhat(self, d, **k):
-        self.calls.append(('rhat', d)); return {key: types.SimpleNamespace(to_numpy=lambda i=i: float(i)) for i, key in enumerate(d)}
+        self.calls.append(('rhat', d)); return self._res(d)
 
 
 def diagnostics_receive_chains(c, geomkind='Continuous1D', n=3, N=4):
     A = c.vec('a', n * N).reshape(n, N); B = c.vec('b', n * N).reshape(n, N)
     geom = {'Continuous1D': lambda: cuqi.geometry.Continuous1D(n), 'Discrete': lambda: cuqi.geometry.Discrete([f'v{i}' for i in range(n)]),
+            'Discrete:names_not_in_alphabetical_order': lambda: cuqi.geometry.Discrete(['sigma', 'alpha', 'tau', 'beta', 'delta'][:n]),
             'Image2D': lambda: cuqi.geometry.Image2D((2, 2))}[geomkind]()
     s = Samples(A, geom); s2 = Samples(B, geom)
     az = _Arviz(); old = SM.__dict__.get('arviz'), SM._check_for_arviz
     SM.arviz = az; SM._check_for_arviz = lambda: None
     try:
-        s.compute_ess()
+        ess = s.compute_ess()
         d = az.calls[-1][1]
         names = list(np.array(geom.variables).flatten())
+        c.holds('ess_result_entry_i_is_the_tools_value_for_variable_i', list(np.ravel(ess)) == [float(100 + i) for i in range(len(names))], note=str(np.ravel(ess)))
         c.holds('ess_one_entry_per_variable_in_order', list(d.keys()) == names, note=f"{list(d.keys())} vs {names}")
         for i, nm in enumerate(names):
             c.eq(f'ess_variable[{i}]_receives_row_{i}_unpermuted', d[nm], A[i, :])
@@ -190,8 +201,9 @@ def diagnostics_receive_chains(c, geomkind='Continuous1D', n=3, N=4):
             dd = s.to_arviz_inferencedata(sel)
             c.holds(f'selection{sel}_has_exactly_the_selected_variables_in_the_order_given', list(dd.keys()) == [names[i] for i in sel], note=str(list(dd.keys())))
             for i in sel: c.eq(f'selection{sel}_variable[{i}]_is_row_{i}', dd[names[i]], A[i, :])
-        s.compute_rhat(s2)
+        rh = s.compute_rhat(s2)
         d = az.calls[-1][1]
+        c.holds('rhat_result_entry_i_is_the_tools_value_for_variable_i', list(np.ravel(rh)) == [float(100 + i) for i in range(len(names))], note=str(np.ravel(rh)))
         for i, nm in enumerate(names):
             c.eq(f'rhat_variable[{i}]_chain0_is_row_{i}', d[nm][0], A[i, :])
             c.eq(f'rhat_variable[{i}]_chain1_is_row_{i}_of_other_chain', d[nm][1], B[i, :])
@@ -222,9 +234,9 @@ def jobs(tier):
     J.append(Job('Samples.funvals:statistics_of_converted_samples', funvals_statistics, 'Pbox', F('Samples.funvals')))
     J.append(Job('Samples.history:all_sequences_of_burnthin_and_conversions', lambda c: op_sequences(c, 3 if tier == 'quick' else 4), 'Pbox',
                  F('Samples.burnthin', 'Samples.funvals', 'Samples.parameters', 'Samples.vector'), timeout=900))
-    for gk in ('Continuous1D', 'Discrete') + (() if tier == 'quick' else ('Image2D',)):
-        n = 4 if gk == 'Image2D' else 3
-        J.append(Job(f'Samples.diagnostics:chains_unpermuted:{gk}', lambda c, gk=gk, n=n: diagnostics_receive_chains(c, gk, n), 'Pbox',
+    for gk in ('Continuous1D', 'Discrete', 'Discrete:names_not_in_alphabetical_order', 'Continuous1D:12_variables') + (() if tier == 'quick' else ('Image2D',)):
+        n = 4 if gk == 'Image2D' else 12 if gk.endswith('12_variables') else 5 if 'alphabetical' in gk else 3
+        J.append(Job(f'Samples.diagnostics:chains_unpermuted:{gk}', lambda c, gk=gk, n=n: diagnostics_receive_chains(c, gk.split(':12')[0], n), 'Pbox',
                      F('Samples.to_arviz_inferencedata', 'Samples.compute_ess', 'Samples.compute_rhat')))
     # statistics are taken on the vector form of function-value samples: the conversion contracts of C13 (column k of the vector form
     # is fun2vec of sample k, also for column-major images and mapped geometries) are claimed for this property as well
